@@ -70,6 +70,43 @@ class Recorder(object):
         return None
 
 
+class RefusingRecorder(Recorder):
+    """a connection on which every synchronous request fails the way a missing attribute does: whatever the netref does
+    AFTER that failure (a retry, a second kind of request) is recorded as well"""
+    def sync_request(self, handler, *args):
+        self.calls.append(("syncreq", handler, args))
+        raise AttributeError("observed: no such attribute")
+
+
+def observe_failing_read(netref, consts):
+    """`getattr(proxy, name)` - through the interpreter, not by calling `__getattribute__` directly, so that Python's own
+    fallback to a `__getattr__` would run - for a name the remote side does not have: every request it costs"""
+    names = handler_names(consts)
+    rows = []
+    for cls in (netref.BaseNetref, netref.class_factory(("observed_nowhere.Class", 1002, 7008), [("observed_method", "doc")])):
+        rec = RefusingRecorder()
+        proxy = cls(rec, ("observed.Class", 1001, 8008))
+        rec.calls[:] = []
+        try:
+            getattr(proxy, "observed_remote_attribute")
+            raised = False
+        except AttributeError:
+            raised = True
+        calls = list(rec.calls)
+        object.__setattr__(proxy, "____conn__", Recorder())
+        if not raised:
+            raise Inexpressible("a failing attribute read on a proxy does not raise AttributeError")
+        row = []
+        for kind, handler, args in calls:
+            if handler not in names:
+                raise Inexpressible("a failing attribute read issues an unknown handler %r" % (handler,))
+            row.append("%s %s %s" % (kind, names[handler], " ".join("$1" if a == "observed_remote_attribute" else "self" if a is proxy else "?" for a in args)))
+        rows.append(row)
+    if rows[0] != rows[1]:
+        raise Inexpressible("a failing attribute read differs between a bare netref and a made class: %r" % (rows,))
+    return rows[0]
+
+
 def handler_names(consts):
     return dict((v, k) for k, v in vars(consts).items() if k.startswith("HANDLE_") and type(v) is int)
 
@@ -494,6 +531,10 @@ def gen_netref():
           "/-- (method, syncreq|asyncreq, proxy expression, HANDLE_*, argument patterns) for every request a",
           "`BaseNetref` method issues when run against a recording connection (`$k` = k-th argument after self) -/",
           "def baseRequests : List (String × String × String × String × List String) := " + lean_list(reqs, 1), ""]
+
+    L += ["/-- every request ONE failing `getattr(proxy, name)` costs, observed through the interpreter on a connection whose",
+          "answer is AttributeError (a retry - e.g. by a `__getattr__` the interpreter falls back to - would be a second row) -/",
+          "def failingReadRequests : List String := " + lean_strs(observe_failing_read(netref, consts)), ""]
 
     # -- _make_method: the four shapes (observed)
     shapes = []
